@@ -170,12 +170,16 @@ func c04Judge(c *hx.Ctx, s *p7Seed, blob []byte, class string, isSeed bool) {
 
 // c04Order verifies ONE parsed object against the three certificates in every order (and twice):
 // each verdict must be the one a fresh parse gives.
-func c04Order(c *hx.Ctx, s *p7Seed) {
+func c04Order(c *hx.Ctx, s *p7Seed) { c04OrderBlob(c, s, s.Blob, "untouched seed") }
+
+// c04OrderBlob: one parsed value of blob asked about the three certificates in every order, twice:
+// every verdict must be the one a freshly parsed value gives (no memory of earlier verifications).
+func c04OrderBlob(c *hx.Ctx, s *p7Seed, blob []byte, class string) {
 	certs := []*x509.Certificate{s.Signer, s.Wrong, s.SameName}
 	names := []string{"signer's certificate", "another certificate", "same issuer+serial, other key"}
 	fresh := make([]bool, 3)
 	for i, ct := range certs {
-		if p, err := pkcs7.ParsePKCS7(s.Blob); err == nil {
+		if p, err := pkcs7.ParsePKCS7(blob); err == nil {
 			hx.Try(func() { fresh[i], _ = p.Verify(ct) })
 		}
 	}
@@ -185,7 +189,7 @@ func c04Order(c *hx.Ctx, s *p7Seed) {
 		if !c.Next() {
 			continue
 		}
-		p, err := pkcs7.ParsePKCS7(s.Blob)
+		p, err := pkcs7.ParsePKCS7(blob)
 		if err != nil {
 			continue
 		}
@@ -196,7 +200,7 @@ func c04Order(c *hx.Ctx, s *p7Seed) {
 			}
 			if ok != fresh[ci] {
 				c.Outcome("order-dependent")
-				c.Violation("C04 verdict depends on verifications made earlier on the same parsed object (against "+names[ci]+")", map[string]any{"seed": s.Name, "order": seq, "fresh_verdicts": fresh})
+				c.Violation("C04 verdict depends on verifications made earlier on the same parsed object (against "+names[ci]+")", map[string]any{"seed": s.Name, "derivation": class, "order": seq, "fresh_verdicts": fresh})
 				break
 			}
 		}
@@ -228,6 +232,7 @@ func c04Run(c *hx.Ctx, tier, unit string) {
 		for _, e := range p7Edits(*s) {
 			c.Count("structural_edits", 1)
 			c04Judge(c, s, e.Blob, e.Name, e.Name == "strip outer ContentInfo")
+			c04OrderBlob(c, s, e.Blob, e.Name)
 		}
 	case "bytes":
 		k, _ := strconv.Atoi(parts[2])
